@@ -185,6 +185,11 @@ _W = {}
 def _worker_init(prop_id, tier, seed):
     devnull = os.open(os.devnull, os.O_WRONLY)
     os.dup2(devnull, 1)
+    try:        # library chatter on stderr (e.g. "Constructing ...Decoder") goes to a log, not to the check's output
+        errlog = os.open(os.path.join(VERIF, '.cache', 'worker-stderr.log'), os.O_WRONLY | os.O_CREAT | os.O_APPEND)
+        os.dup2(errlog, 2)
+    except OSError:
+        os.dup2(devnull, 2)
     logging.disable(logging.CRITICAL)
     _W['mod'] = load_prop(prop_id)
     _W['args'] = (prop_id, tier, seed)
